@@ -130,6 +130,7 @@ func execOp(s store, op Op, opaque bool) (r Res) {
 // generators
 
 var (
+	seqTTLs   = []string{ttlZero, ttlZero, ttlShort, ttlShort, ttlShort, ttlLong}
 	seqKeys   = []string{"k0", "k1", "k2", "k3"}
 	strPool   = []string{"a", "b", "", "7", `{"id":1}`, `{"id":2,"s":"x y"}`, "héllo<&>"}
 	intPool   = []int64{0, 1, 7, -3, 1 << 53}
@@ -174,7 +175,7 @@ var seqOpKinds = []string{
 	"SetList", "GetList", "AppendToList", "AppendToList", "RemoveFromList",
 	"SetHash", "SetHash", "GetHash", "GetAllHash", "DeleteHash",
 	"Incr", "IncrBy", "SetNX", "SetNX", "CompareAndSwap", "CompareAndSwap", "CompareAndSwap",
-	"SetExpiration", "GetExpiration", "CleanupExpired", "sleep",
+	"SetExpiration", "GetExpiration", "CleanupExpired", "sleep", "sleep",
 }
 
 func genOp(t *rapid.T, kinds []string, keys []string, ttls []string, cur func(string) kstate) Op {
@@ -222,6 +223,7 @@ func genOp(t *rapid.T, kinds []string, keys []string, ttls []string, cur func(st
 
 type outcome struct {
 	key, detail string // violation (key != "")
+	step        int    // index of the deviating call
 	skipped     bool   // boundary zone reached: no verdict for the rest of the history
 	feats       map[string]bool
 }
@@ -235,26 +237,36 @@ func isRead(kind string) bool {
 }
 
 // classify names the root cause of a deviation of the memory backend from the model.
-func classify(op Op, class, writer, symptom string, got, want Res) string {
-	gotAbsent := got.Err == "notfound" || (op.Kind == "Exists" && !got.B) || (op.Kind == "SetNX" && got.B)
+// stored is the model's item for the key (also when its lifetime has run out).
+func classify(op Op, class, writer, symptom string, got, want Res, stored kstate) string {
 	wantAlive := strings.HasPrefix(class, "never-expiring-") || strings.HasPrefix(class, "ttl-")
+	expired := strings.HasPrefix(class, "expired-")
+	// does memory answer exactly as if the (live) key were absent / the (expired) key were live?
+	actsAbsent, actsAlive := false, false
+	if wantAlive {
+		_, w, _ := step(kstate{}, op)
+		actsAbsent, _ = sameExact(op, got, w)
+	}
+	if expired && op.Kind != "GetExpiration" {
+		_, w, _ := step(stored, op)
+		actsAlive, _ = sameExact(op, got, w)
+	}
 	switch {
-	case op.Kind == "CompareAndSwap" && strings.HasPrefix(class, "never-expiring-") && want.B && !got.B && got.Err == "":
+	case op.Kind == "CompareAndSwap" && strings.HasPrefix(class, "never-expiring-") && got.Err == "":
 		return "C13/memory-cas/zero-expiration-treated-as-expired"
-	case wantAlive && gotAbsent && writer == "CompareAndSwap[ttl=0]":
+	case wantAlive && actsAbsent && writer == "CompareAndSwap[ttl=0]":
 		return "C13/memory-cas/ttl0-stores-already-expired-value"
-	case wantAlive && writer == "CompareAndSwap[ttl=0]" && op.Kind == "CompareAndSwap":
-		return "C13/memory-cas/ttl0-stores-already-expired-value"
-	case op.Kind == "SetExpiration" && strings.HasPrefix(class, "expired-") && got.Err == "":
+	case wantAlive && actsAbsent && writer == "SetExpiration[ttl=0]":
+		return "C13/memory-setexpiration/ttl0-expires-now"
+	case op.Kind == "SetExpiration" && expired && got.Err == "":
 		return "C13/memory-setexpiration/expired-key-resurrected"
-	case wantAlive && gotAbsent && writer == "SetExpiration[ttl=0]":
-		return "C13/memory-setexpiration/ttl0-expires-now"
-	case wantAlive && writer == "SetExpiration[ttl=0]" && (op.Kind == "CompareAndSwap" || op.Kind == "GetExpiration"):
-		return "C13/memory-setexpiration/ttl0-expires-now"
 	}
 	w := ""
-	if wantAlive && writer != "" && (isRead(op.Kind) || gotAbsent) {
-		w = "/lifetime-from=" + writer
+	if wantAlive && actsAbsent {
+		w = "/acts-absent/lifetime-from=" + writer
+	}
+	if actsAlive {
+		w = "/acts-alive"
 	}
 	return fmt.Sprintf("C13/memory/%s/on=%s%s/%s", op.ttlTag(), class, w, symptom)
 }
@@ -316,12 +328,13 @@ func runSeq(ops []Op) outcome {
 			out.skipped = true
 			return out
 		}
-		writer := ""
+		writer, stored := "", kstate{}
 		if e := m.keys[op.Key]; e != nil {
-			writer = e.writer
+			writer, stored = e.writer, e.st
 		}
 		if same, symptom := sameExact(op, got, want); !same {
-			out.key = classify(op, class, writer, symptom, got, want)
+			out.step = i
+			out.key = classify(op, class, writer, symptom, got, want, stored)
 			out.detail = fmt.Sprintf("step %d %s on %s key (lifetime set by %q): memory answered %s, sequential map with expiry answers %s; history: %s",
 				i, op, class, writer, got, want, histString(ops[:i+1]))
 			return out
@@ -359,8 +372,44 @@ func seqClass(f map[string]bool) string {
 	return "seq:plain"
 }
 
+// best (shortest) failing history per root-cause key seen by this process
+var bestRepro = map[string]struct {
+	c      Case
+	detail string
+}{}
+
+// minimize drops single operations (never the last, deviating one) while the same
+// root cause reproduces; done once per key and never for listed findings.
+func minimize(key, detail string, c Case, rerun func([]Op) (string, string)) (Case, string) {
+	if vkit.IsKnown(key) {
+		return c, detail
+	}
+	if b, ok := bestRepro[key]; ok {
+		if len(b.c.Ops) <= len(c.Ops) {
+			return b.c, b.detail
+		}
+	}
+	cur := append([]Op(nil), c.Ops...)
+	budget := 80
+	for i := len(cur) - 2; i >= 0 && budget > 0; i-- {
+		cand := append(append([]Op{}, cur[:i]...), cur[i+1:]...)
+		budget--
+		if k, d := rerun(cand); k == key {
+			cur, detail = cand, d
+		}
+	}
+	c.Ops = cur
+	bestRepro[key] = struct {
+		c      Case
+		detail string
+	}{c, detail}
+	return c, detail
+}
+
 func finishSeq(t vkit.TB, c Case, out outcome) {
 	if out.key != "" {
+		c.Ops = c.Ops[:out.step+1]
+		c, out.detail = minimize(out.key, out.detail, c, func(ops []Op) (string, string) { o := runSeq(ops); return o.key, o.detail })
 		vkit.Violation(t, out.key, out.detail, c)
 		vkit.Case("known:"+out.key, false, "")
 		return
@@ -388,7 +437,7 @@ func TestSequentialModel(t *testing.T) {
 		sleeps := 0
 		c := Case{Part: "seq"}
 		for i := 0; i < n; i++ {
-			op := genOp(t, seqOpKinds, seqKeys, ttlPool, func(k string) kstate { return shadow[k] })
+			op := genOp(t, seqOpKinds, seqKeys, seqTTLs, func(k string) kstate { return shadow[k] })
 			if op.Kind == "sleep" {
 				if sleeps >= 3 {
 					continue
